@@ -5,7 +5,8 @@ and the direct oracle.
 run()     real python vs compiled Lean driver on the same inputs:
   T1 grouping   REAL `EndpointsEmitter.emit`, `ClientVisitor.visit`, `MocksEmitter.emit` (only the leaf renderers are
                 replaced by recorders) on random tag assignments        vs  groupEndpoints / tagMapVisitor / clientProps /
-                groupMocks / mockClientProps;  the REAL source text of the two nested `tag_score` functions vs tagScore.
+                groupMocksRaw (= groupMocks) / mockClientProps;  the REAL source text of the two nested `tag_score` functions and of
+                `mocks_emitter._tag_score` vs tagScore.
   T2 pipeline   REAL `generate_client` on seeded random specs with spies on `EndpointMethodGenerator.generate`,
                 `generate_endpoint_protocol`, `_transform_to_mock`: the strings the visitor really passes and gets back
                                                                           vs  protoStub / toMockOp
@@ -476,7 +477,8 @@ def _impl_grouping(tag_lists: list[list[str]], root: str) -> dict:
 
 
 def _real_tag_scores():
-    """The two nested `tag_score` functions, compiled from their REAL source text."""
+    """The two nested `tag_score` functions, compiled from their REAL source text, and the module-level copy of the mocks emitter
+    (F23 repaired: `_tag_score`; absent from a tree without the repair)."""
     import inspect
     import textwrap
     from pyopenapi_gen.emitters.endpoints_emitter import EndpointsEmitter
@@ -489,6 +491,8 @@ def _real_tag_scores():
         ns: dict = {"re": re}
         exec(compile(ast.Module(body=[node], type_ignores=[]), "<tag_score>", "exec"), ns)  # noqa: S102 - source of /repo
         fns.append(ns["tag_score"])
+    from pyopenapi_gen.emitters import mocks_emitter
+    fns.append(getattr(mocks_emitter, "_tag_score", None))
     return fns
 
 
@@ -542,12 +546,12 @@ def run(seed: int, scale: float, driver: str) -> dict:
         for c in cases:
             ops = [[f"op{i}", t] for i, t in enumerate(c)]
             u = _uinfo(t for ts in c for t in ts)
-            for f in ("groupEndpoints", "groupEndpointsFused", "tagMapVisitor", "clientProps", "groupMocks", "mockClientProps",
-                      "tagMapEmitter"):
+            for f in ("groupEndpoints", "groupEndpointsFused", "tagMapVisitor", "clientProps", "groupMocksRaw", "mockClientProps",
+                      "tagMapEmitter", "groupMocks"):
                 reqs.append({"f": f, "a": [ops], "u": u})
         model = _drive(driver, reqs)
         for ci, c in enumerate(cases):
-            mge, mgf, mtv, mcp, mgm, mmp, mte = model[ci * 7:(ci + 1) * 7]
+            mge, mgf, mtv, mcp, mgm, mmp, mte, mgmf = model[ci * 8:(ci + 1) * 8]
             impl = _impl_grouping(c, os.path.join(sc.dir, "g"))
             check("groupEndpoints", c, None if mge is None else [[None] + g[1:] for g in mge], impl["endpoints"])
             check("groupEndpoints-fused", c, mgf, mge)
@@ -557,8 +561,9 @@ def run(seed: int, scale: float, driver: str) -> dict:
                 check("clientProps", c, mcp, [t[2] for t in impl["client_tuples"]])
             else:
                 check("tagMapVisitor", c, mtv, impl["client_tuples"])
-            check("groupMocks", c, [[g[1], g[2], g[4]] for g in mgm], impl["mocks"])
-            if isinstance(impl["mocks"], list):
+            check("groupMocks", c, None if mgm is None else [[g[1], g[2], g[4]] for g in mgm], impl["mocks"])
+            check("groupMocks-fused", c, mgmf, mgm)
+            if isinstance(impl["mocks"], list) and mgm is not None:
                 check("mockClientProps", c, mmp, [t[2] for t in impl["mock_tuples"]])
                 check("mock-tuple-class", c, [g[3] for g in mgm], [t[1] for t in impl["mock_tuples"]])
             multi = any(len(t) > 1 for t in c)
@@ -574,10 +579,11 @@ def run(seed: int, scale: float, driver: str) -> dict:
         tags = sorted({t for c in cases for ts in c for t in ts} | set(TAG_POOL) | set(HOSTILE_TAGS) | {_rand_tag(rng) for _ in range(int(300 * scale))}
                       | {"".join(rng.choice("abAB1_- .éÉ") for _ in range(rng.randint(1, 9))) for _ in range(int(1500 * scale))})
         ms = _drive(driver, [{"f": "tagScore", "a": [t], "u": _uinfo([t])} for t in tags])
-        f_em, f_cv = _real_tag_scores()
+        f_em, f_cv, f_mk = _real_tag_scores()
         for t, m in zip(tags, ms):
             check("tagScore-emitter", t, m, list(f_em(t)))
             check("tagScore-visitor", t, m, list(f_cv(t)))
+            check("tagScore-mocks", t, m, None if f_mk is None else list(f_mk(t)))
             if m[0] or m[2]:
                 nontrivial.add(("s", t))
         bump("tagScore", len(tags))
@@ -987,7 +993,7 @@ def _evaluate(doc: dict, root: str, scratch: str) -> tuple[int, list[dict]]:
 
 
 # defect classes proved as `_counterexample` in Pog/Props/C13.lean (expected on the unchanged tree)
-EXPECTED_CLASSES = ["mock-groups-by-first-raw-tag", "mock-tag-case-variants-collide"]     # F47's two classes are repaired
+EXPECTED_CLASSES: list[str] = []     # the classes of F23 (mock-groups-by-first-raw-tag, mock-tag-case-variants-collide) and of F47 are repaired
 
 
 def _witness_docs() -> list[dict]:
